@@ -90,6 +90,7 @@ def contracts(repo):
     for sp in AC.specs('vector'):
         if '__setitem__' in sp.name or '_validate_key' in sp.name:
             items.append(sp)
+    items.append(set_attribute_single_spec())
     return items
 
 
@@ -245,3 +246,75 @@ def bounded(tier, seed):
                      'tag contents are compared with the array model and re-read after every acknowledged write; '
                      'distinct = distinct (service, types, index-len, count-len, data-count, offset) classes',
                 exhaustive=False, samples=samples, violations=violations[:20], seed=seed)
+
+
+# ---- Object.request: Set Attribute Single (exact byte count before unpack / assign) -------------------------
+import z3 as _z3
+from pyvc.vals import SeqV, IntV, BoolV, RefV, OpaqueV, PyListV, IntSeq, USort, NONE
+from pyvc.pure import fresh
+
+DV = "server/enip/device.py"
+
+
+def sa_data(eng, name, st):
+    st = st.clone()
+    rid, pid, sid, did = eng.new_id(), eng.new_id(), eng.new_id(), eng.new_id()
+    st.heap[(sid, 'attribute')] = (_z3.Bool('_g_path_has_attribute'), IntV(_z3.Int('_g_aid')))
+    st.heap[(sid, '__closed__')] = True
+    st.heap[(sid, '__keys__')] = ('attribute',)
+    st.heap[(pid, 'segment')] = (_z3.BoolVal(True), PyListV([RefV(sid, 'rec')]))
+    st.heap[(pid, '__closed__')] = True
+    st.heap[(pid, '__keys__')] = ('segment',)
+    raw = SeqV(_z3.Const('_g_raw', IntSeq), 'list')
+    st.heap[(did, 'data')] = (_z3.Bool('_g_has_data'), raw)
+    st.heap[(did, '__closed__')] = True
+    st.heap[(did, '__keys__')] = ('data',)
+    top = {'service': (_z3.Bool('_g_service_given'), IntV(0x10)), 'path': (_z3.BoolVal(True), RefV(pid, 'rec')),
+           'set_attribute_single': (_z3.BoolVal(True), RefV(did, 'rec')),
+           'status_ext': (_z3.Bool('_g_has_ext'), OpaqueV(_z3.Const('_g_ext', USort), 'ext'))}
+    for k, pv in top.items():
+        st.heap[(rid, k)] = pv
+    st.heap[(rid, '__closed__')] = True
+    st.heap[(rid, '__keys__')] = tuple(top.keys())
+    eng.init_vals['_g_raw'] = raw
+    for k in ('_g_path_has_attribute', '_g_has_data'):
+        eng.init_vals[k] = BoolV(_z3.Bool(k))
+    eng.tracked_refs.add(rid)
+    return RefV(rid, 'rec'), st
+
+
+def unpacked_values(eng, st):
+    """ASSUMED model of `[struct.unpack(fmt, buf[i:i+siz])[0] for i in range(0, len(buf), siz)]`: one value per siz-byte group"""
+    buf = st.loc['buf']
+    siz = st.loc['siz']
+    v = SeqV(fresh('unpacked', IntSeq), 'list')
+    st.pc.append(_z3.Length(v.t) == (_z3.Length(buf.t) + siz.t - 1) / siz.t)
+    return v
+
+
+def set_attribute_single_spec():
+    callees = {}
+    for sp in AC.specs('vector'):
+        if sp.name.startswith('Attribute.__setitem__[vector][slice]'):
+            sp.hints = dict(sp.hints, unpack=AC.unpack_slice)
+            callees['Attribute.__setitem__'] = sp
+    return Spec('Object.request[set_attribute_single]', (DV, 'Object.request'),
+                params={'data': sa_data, '_g_att': ('Obj', 'Attribute', AC.VEC_FIELDS), '_g_att_exists': 'Bool', '_g_siz': 'Int'},
+                env={'str(a_id) in self.attribute': '_g_att_exists',
+                     'self.attribute[str(a_id)]': '_g_att',
+                     'att.parser.struct_calcsize': '_g_siz',
+                     'att.parser.struct_format': lambda eng, st: OpaqueV(_z3.Const('_g_fmt', USort), 'fmt'),
+                     '[struct.unpack(fmt, buf[i:i + siz])[0] for i in range(0, len(buf), siz)]': unpacked_values,
+                     'self.produce(data)': lambda eng, st: SeqV(_z3.Const('_g_produced', IntSeq), 'bytes')},
+                requires='_g_siz >= 1 and _g_att.mask >= 0 and len(_g_att.default) >= 1',
+                defs=dict(N='len(old(_g_att.default))', EXACT='_g_has_data and len(_g_raw) == _g_siz * N',
+                          OK='_g_path_has_attribute and _g_att_exists and _g_att.mask % 2 == 0 and EXACT',
+                          UNCHANGED='_g_att.default == old(_g_att.default)'),
+                ensures=[('exact byte count is accepted', 'implies(OK, data.status == 0x00)'),
+                         ('any other byte count is refused and leaves the attribute as it was', 'implies(not OK, data.status != 0x00 and UNCHANGED)'),
+                         ('the attribute never changes its length', 'len(_g_att.default) == N'),
+                         ('reply-bit', 'data.service == 0x90'), ('returns-true', 'result == True'), ('one-reply-payload-produced', "has(data, 'input')")],
+                raises={}, modifies=['_g_att.default', 'data.service', 'data.status', 'data.status_ext', 'data.input'],
+                callees=callees, inline=['__len__'],
+                note='Set Attribute Single path of the whole method; the unpack comprehension by ASSUMED model (one value per element-size group); '
+                     'Attribute.__setitem__ by its proved contract (its precondition len(value) == slice length is an obligation here)')
